@@ -1000,7 +1000,8 @@ pub fn gen_scn(id: &str, rng: &Rng, thorough: bool) -> ParScn {
     let init_api = matches!(api, Api::GenericInit | Api::FastaInit | Api::FastqInit);
     let set_level = matches!(api, Api::Generic | Api::GenericInit | Api::ReusableFastq | Api::ReusableFasta);
     let fasta = matches!(api, Api::Fasta | Api::FastaInit | Api::ReusableFasta);
-    let n_threads = rng.range(1, 4) as u32;
+    // mostly 1..4 worker threads, now and then many more than the queue is long
+    let n_threads = if rng.chance(1, 25) { rng.range(5, 12) as u32 } else { rng.range(1, 4) as u32 };
     let queue_len = rng.range(1, 4);
     let max_sets = if id == "C16" { if thorough { 60 } else { 40 } } else { 10 };
     let n_sets = rng.small(max_sets);
